@@ -339,28 +339,51 @@ func c04AloneRun(cs *C04Case) (*c04Alone, Res) {
 	return a, Res{OK: true}
 }
 
-// c04RunSchedule runs all tasks of cs under choose on a fresh world.
-func c04RunSchedule(c *Ctx, cs *C04Case, alone *c04Alone, pol policy, sites *SiteTable) (fails []c04Fail, rr simrt.RunResult) {
+// c04Run is one executed schedule, not yet judged.
+type c04Run struct {
+	results [][]Res
+	rr      simrt.RunResult
+	changed []string // shared binding environments modified during the run
+	budget  []int64
+	pol     policy
+}
+
+// c04Exec runs all tasks of cs under pol on a FRESH world. alone may be nil
+// (cold run before the baselines exist: a generous fixed step budget is used).
+func c04Exec(cs *C04Case, alone *c04Alone, pol policy) *c04Run {
 	w, _ := c04Build(cs)
 	snaps := make([]string, len(w.envs))
 	for i, e := range w.envs {
 		snaps[i] = Snapshot(e)
 	}
-	results := make([][]Res, len(cs.Tasks))
+	run := &c04Run{pol: pol, results: make([][]Res, len(cs.Tasks)), budget: make([]int64, len(cs.Tasks))}
 	fns := make([]func(), len(cs.Tasks))
-	budget := make([]int64, len(cs.Tasks))
 	for i := range cs.Tasks {
 		i := i
-		results[i] = make([]Res, 0, len(cs.Tasks[i]))
+		run.results[i] = make([]Res, 0, len(cs.Tasks[i]))
 		fns[i] = func() {
 			for _, op := range cs.Tasks[i] {
-				results[i] = append(results[i], w.exec(op))
+				run.results[i] = append(run.results[i], w.exec(op))
 			}
 		}
-		budget[i] = alone.steps[i]*50 + 10000
+		run.budget[i] = 20_000_000
+		if alone != nil {
+			run.budget[i] = alone.steps[i]*50 + 10000
+		}
 	}
 	c03Pin()
-	rr = simrt.RunTasks(fns, budget, pol.choose)
+	run.rr = simrt.RunTasks(fns, run.budget, pol.choose)
+	for i, e := range w.envs {
+		if s := Snapshot(e); s != snaps[i] {
+			run.changed = append(run.changed, fmt.Sprintf("shared binding environment %d was modified during the concurrent run: %s", i, diffAt(snaps[i], s)))
+		}
+	}
+	return run
+}
+
+// c04Judge applies the four oracles to an executed schedule.
+func c04Judge(cs *C04Case, alone *c04Alone, run *c04Run, sites *SiteTable) (fails []c04Fail) {
+	rr, pol, results := run.rr, run.pol, run.results
 	add := func(clause, detail, key string) {
 		fails = append(fails, c04Fail{clause: clause, detail: detail, sig: clause + "|" + key, trace: rr.Trace, policy: pol.name})
 	}
@@ -368,7 +391,7 @@ func c04RunSchedule(c *Ctx, cs *C04Case, alone *c04Alone, pol policy, sites *Sit
 		add("progress", "simulated deadlock: every live task is blocked on a modelled synchronisation primitive", "deadlock")
 	}
 	for _, t := range rr.Overrun {
-		add("progress", fmt.Sprintf("task %d exceeded its step budget (%d steps; alone it needs %d): the operation does not return", t, budget[t-1], alone.steps[t-1]), "budget")
+		add("progress", fmt.Sprintf("task %d exceeded its step budget (%d steps; alone it needs %d): the operation does not return", t, run.budget[t-1], alone.steps[t-1]), "budget")
 	}
 	for _, cf := range rr.Conflicts {
 		a, b := sites.Name(cf.SiteA), sites.Name(cf.SiteB)
@@ -398,15 +421,19 @@ func c04RunSchedule(c *Ctx, cs *C04Case, alone *c04Alone, pol policy, sites *Sit
 			}
 		}
 	}
-	for i, e := range w.envs {
-		if s := Snapshot(e); s != snaps[i] {
-			add("shared-bindings-unchanged", fmt.Sprintf("shared binding environment %d was modified during the concurrent run: %s", i, diffAt(snaps[i], s)), "bindings")
-		}
+	for _, ch := range run.changed {
+		add("shared-bindings-unchanged", ch, "bindings")
 	}
 	for t, p := range rr.Panics {
 		add("no-panic", fmt.Sprintf("task %d panicked outside a guarded call: %s", t, p), "task-panic")
 	}
 	return
+}
+
+// c04RunSchedule = exec + judge.
+func c04RunSchedule(c *Ctx, cs *C04Case, alone *c04Alone, pol policy, sites *SiteTable) ([]c04Fail, simrt.RunResult) {
+	run := c04Exec(cs, alone, pol)
+	return c04Judge(cs, alone, run, sites), run.rr
 }
 
 func siteKey(t *SiteTable, id uint32) string {
@@ -445,13 +472,17 @@ func (ck c04) RunCase(c *Ctx, idx int) *CaseOut {
 			fatal("C04 cannot run: package %s lost its access instrumentation (level %d)", "liquid"+pkg, lv)
 		}
 	}
-	alone, r0 := c04AloneRun(cs)
-	if alone == nil {
+	if w, r0 := c04Build(cs); w == nil {
 		c.logf("setup: %s", r0.Key())
 		out.Discarded = r0.Panic != ""
 		out.Digest = c.takeDigest()
 		return out
 	}
+	// Cold schedule: the tasks run concurrently BEFORE anything in this case has been
+	// executed alone, so state that is initialised lazily on first use (per engine,
+	// per template or per process) is initialised under concurrency.
+	cold := c04Exec(cs, nil, c04Policy(r.Fork(999), 1+r.Intn(3), len(cs.Tasks), 200000))
+	alone, _ := c04AloneRun(cs)
 	var total int64
 	for _, s := range alone.steps {
 		total += s
@@ -479,11 +510,18 @@ func (ck c04) RunCase(c *Ctx, idx int) *CaseOut {
 	seen := map[string]bool{}
 	for s := 0; s < S; s++ {
 		kind := 0
-		if s > 0 {
+		if s > 1 {
 			kind = 1 + r.Intn(3)
 		}
 		pol := c04Policy(r.Fork(uint64(1000+s)), kind, len(cs.Tasks), total)
-		fails, rr := c04RunSchedule(c, cs, alone, pol, c.Sites)
+		var fails []c04Fail
+		var rr simrt.RunResult
+		if s == 0 {
+			pol = policy{"cold:" + cold.pol.name, nil}
+			fails, rr = c04Judge(cs, alone, cold, c.Sites), cold.rr
+		} else {
+			fails, rr = c04RunSchedule(c, cs, alone, pol, c.Sites)
+		}
 		out.Evals++
 		h, sw := traceHash(rr.Trace)
 		c.logf("schedule %d %s: segs=%d switches=%d steps=%v conflicts=%d fails=%d", s, pol.name, len(rr.Trace), sw, rr.Steps, len(rr.Conflicts), len(fails))
